@@ -22,6 +22,11 @@ theorem Bytes.replicate {n v : Nat} (hv : v < 256) : Bytes (List.replicate n v) 
   intro x hx; rw [List.mem_replicate] at hx; omega
 theorem Bytes.nil : Bytes [] := by intro x hx; cases hx
 
+theorem drop_len_sub {α} (A t : List α) (p : Nat) (h : t.length = p) : (A ++ t).drop ((A ++ t).length - p) = t := by
+  rw [List.length_append, h, Nat.add_sub_cancel, List.drop_left' rfl]
+theorem take_len_sub {α} (A t : List α) (p : Nat) (h : t.length = p) : (A ++ t).take ((A ++ t).length - p) = A := by
+  rw [List.length_append, h, Nat.add_sub_cancel, List.take_left' rfl]
+
 /-! ### xor -/
 theorem xorstr_eq_spec (a b : List Nat) : xorstr a b = Spec.Mode.xor a b := rfl
 
